@@ -19,6 +19,7 @@ import (
 	"crypto/x509/pkix"
 	"encoding/json"
 	"encoding/pem"
+	"errors"
 	"fmt"
 	"math/big"
 	"net"
@@ -26,6 +27,7 @@ import (
 	"net/http/httptest"
 	"os"
 	"reflect"
+	"regexp"
 	"sort"
 	"strings"
 	"sync"
@@ -34,8 +36,11 @@ import (
 
 	"go.uber.org/zap"
 	"go.uber.org/zap/zapcore"
+	"go.uber.org/zap/zaptest/observer"
 	"google.golang.org/grpc"
+	"google.golang.org/grpc/codes"
 	"google.golang.org/grpc/metadata"
+	"google.golang.org/grpc/status"
 	"google.golang.org/protobuf/types/known/emptypb"
 
 	"go.opentelemetry.io/collector/component/componenttest"
@@ -711,6 +716,216 @@ func vUseTLS(t *testing.T, out *vOut) {
 	}
 }
 
+var vLocalPort = regexp.MustCompile(`127\.0\.0\.1:\d+->`)
+
+func vNormErr(err error) string {
+	if err == nil {
+		return "<no error>"
+	}
+	return vLocalPort.ReplaceAllString(err.Error(), "127.0.0.1:L->")
+}
+
+// vFailOracle: nothing a consumer gives back or logs on a FAILING request may show a configured secret
+func vFailOracle(out *vOut, what, term string, cfg [][2]string, texts ...string) {
+	for _, kv := range cfg {
+		for _, txt := range texts {
+			if how := vReveals(txt, kv[1]); how != "" {
+				if len(txt) > 400 {
+					txt = txt[:400] + "..."
+				}
+				out.Oracle("secret-revealed", term, fmt.Sprintf("path=%s: the configured value of header %q occurs (%s) in %q; cause=unexplained", what, kv[0], how, txt))
+				return
+			}
+		}
+	}
+}
+
+// vUseFailures: requests that FAIL below the consumers (connection refused, protocol mismatch, timeout, the
+// peer hanging up, an error status): the error that comes back, every rendering of it, and everything
+// logged through the component's logger.  Baseline: a client without configured headers on the same endpoint.
+func vUseFailures(t *testing.T, out *vOut, secrets []string) {
+	ctx := context.Background()
+	var safe []string
+	for _, sec := range secrets {
+		if vHeaderSafe(sec) && len(sec) < 200 && vDistinctive(sec) {
+			safe = append(safe, sec)
+		}
+	}
+	core, logs := observer.New(zapcore.DebugLevel)
+	tel := componenttest.NewNopTelemetrySettings()
+	tel.Logger = zap.New(core)
+	// -- endpoints
+	dead, err := net.Listen("tcp", "127.0.0.1:0")
+	if err != nil {
+		t.Fatal(err)
+	}
+	deadAddr := dead.Addr().String()
+	dead.Close()
+	release := make(chan struct{})
+	slow := httptest.NewServer(http.HandlerFunc(func(http.ResponseWriter, *http.Request) { <-release }))
+	defer slow.Close()
+	defer close(release) // (runs before slow.Close, which waits for the handlers)
+	plain := httptest.NewServer(http.HandlerFunc(func(w http.ResponseWriter, _ *http.Request) { w.WriteHeader(204) }))
+	defer plain.Close()
+	hang, err := net.Listen("tcp", "127.0.0.1:0")
+	if err != nil {
+		t.Fatal(err)
+	}
+	defer hang.Close()
+	go func() {
+		for {
+			c, err := hang.Accept()
+			if err != nil {
+				return
+			}
+			go func() { // read the request head, then hang up without an answer
+				buf := make([]byte, 65536)
+				n := 0
+				for n < len(buf) {
+					m, err := c.Read(buf[n:])
+					n += m
+					if err != nil || bytes.Contains(buf[:n], []byte("\r\n\r\n")) {
+						break
+					}
+				}
+				c.Close()
+			}()
+		}
+	}()
+	type scen struct {
+		name    string
+		url     string
+		timeout time.Duration
+		model   bool // the error text is deterministic: compared with the model (baseline = next layer's error)
+	}
+	scens := []scen{
+		{"connection-refused", "http://" + deadAddr + "/v1/x", 0, true},
+		{"https-client-to-http-server", "https://" + strings.TrimPrefix(plain.URL, "http://") + "/", 0, true},
+		{"client-timeout", slow.URL, 300 * time.Millisecond, false}, // (net/http words a timeout in two ways, depending on the race)
+		{"peer-hangs-up", "http://" + hang.Addr().String() + "/", 0, false},
+	}
+	doReq := func(sc scen, cfg [][2]string, method string) error {
+		cc := confighttp.NewDefaultClientConfig()
+		cc.Endpoint = sc.url
+		cc.Timeout = sc.timeout
+		if strings.HasPrefix(sc.url, "https") {
+			cc.TLSSetting = configtls.ClientConfig{InsecureSkipVerify: true}
+		}
+		if cfg != nil {
+			cc.Headers = map[string]configopaque.String{}
+			for _, kv := range cfg {
+				cc.Headers[kv[0]] = configopaque.String(kv[1])
+			}
+		}
+		cl, err := cc.ToClient(ctx, componenttest.NewNopHost(), tel)
+		if err != nil {
+			t.Fatalf("ToClient: %v", err)
+		}
+		defer cl.CloseIdleConnections()
+		req, _ := http.NewRequestWithContext(ctx, method, sc.url, strings.NewReader("body"))
+		resp, err := cl.Do(req)
+		if err == nil {
+			resp.Body.Close()
+		}
+		return err
+	}
+	for _, sc := range scens {
+		for _, method := range []string{http.MethodGet, http.MethodPost} {
+			base := doReq(sc, nil, method)
+			if base == nil {
+				t.Fatalf("scenario %s: the request did not fail", sc.name)
+			}
+			for r := 0; r < 2 && r < len(safe); r++ {
+				cfg := [][2]string{{"Authorization", "Bearer " + safe[r]}, {"X-Api-Key", safe[(r+1)%len(safe)]}, {"x-signature-bin", safe[(r+2)%len(safe)]}}
+				err := doReq(sc, cfg, method)
+				term := "CFail false " + vEncPairs(cfg) + " " + vEnc(vNormErr(base)) + " " + vEnc(vNormErr(err))
+				out.Stat("fail_http_"+sc.name, 1)
+				if err == nil {
+					out.Oracle("secret-revealed", term, "path=http client failure "+sc.name+": the request with configured headers did not fail; cause=unexplained")
+					continue
+				}
+				if sc.model {
+					out.Case(true, term)
+				}
+				vFailOracle(out, "error returned by http.Client.Do ("+sc.name+", "+method+")", term, cfg,
+					err.Error(), fmt.Sprintf("%+v|%#v|%q|%s", err, err, err, errors.Unwrap(err)), fmt.Errorf("export failed: %w", err).Error())
+			}
+		}
+	}
+	// -- grpc: a dead endpoint and a server that answers with an error status
+	gs := grpc.NewServer(grpc.UnknownServiceHandler(func(any, grpc.ServerStream) error {
+		return status.Error(codes.PermissionDenied, "denied by the test server")
+	}))
+	glis, err := net.Listen("tcp", "127.0.0.1:0")
+	if err != nil {
+		t.Fatal(err)
+	}
+	go func() { _ = gs.Serve(glis) }()
+	defer gs.Stop()
+	doCall := func(addr string, cfg [][2]string, stream bool) error {
+		cc := configgrpc.NewDefaultClientConfig()
+		cc.Endpoint = addr
+		cc.TLSSetting = configtls.ClientConfig{Insecure: true}
+		if cfg != nil {
+			cc.Headers = map[string]configopaque.String{}
+			for _, kv := range cfg {
+				cc.Headers[kv[0]] = configopaque.String(kv[1])
+			}
+		}
+		cctx, cancel := context.WithTimeout(ctx, 30*time.Second)
+		defer cancel()
+		conn, err := cc.ToClientConn(cctx, componenttest.NewNopHost(), tel)
+		if err != nil {
+			return err
+		}
+		defer conn.Close()
+		if !stream {
+			return conn.Invoke(cctx, "/verif.F/Unary", &emptypb.Empty{}, &emptypb.Empty{})
+		}
+		st, err := conn.NewStream(cctx, &grpc.StreamDesc{StreamName: "Stream", ClientStreams: true, ServerStreams: true}, "/verif.F/Stream")
+		if err != nil {
+			return err
+		}
+		_ = st.CloseSend()
+		return st.RecvMsg(&emptypb.Empty{})
+	}
+	for _, g := range []struct{ name, addr string }{{"connection-refused", deadAddr}, {"error-status", glis.Addr().String()}} {
+		for _, stream := range []bool{false, true} {
+			base := doCall(g.addr, nil, stream)
+			if base == nil {
+				t.Fatalf("grpc scenario %s: the call did not fail", g.name)
+			}
+			for r := 0; r < 2 && r < len(safe); r++ {
+				cfg := [][2]string{{"authorization", "Bearer " + safe[r]}, {"x-api-key", safe[(r+1)%len(safe)]}, {"x-signature-bin", safe[(r+2)%len(safe)]}}
+				err := doCall(g.addr, cfg, stream)
+				term := "CFail true " + vEncPairs(cfg) + " " + vEnc(vNormErr(base)) + " " + vEnc(vNormErr(err))
+				out.Stat("fail_grpc_"+g.name, 1)
+				if err == nil {
+					out.Oracle("secret-revealed", term, "path=grpc client failure "+g.name+": the call with configured headers did not fail; cause=unexplained")
+					continue
+				}
+				out.Case(true, term)
+				vFailOracle(out, fmt.Sprintf("error returned by the grpc call (%s, stream=%v)", g.name, stream), term, cfg,
+					err.Error(), fmt.Sprintf("%+v|%#v|%q", err, err, err), status.Convert(err).Message(), fmt.Errorf("export failed: %w", err).Error())
+			}
+		}
+	}
+	// -- everything the consumers logged through the component's logger on the way
+	var lb strings.Builder
+	enc := zapcore.NewJSONEncoder(zapcore.EncoderConfig{MessageKey: "msg"})
+	for _, e := range logs.All() {
+		if b, err := enc.EncodeEntry(e.Entry, e.Context); err == nil {
+			lb.WriteString(b.String())
+		}
+	}
+	out.Stat("fail_log_entries", logs.Len())
+	all := [][2]string{}
+	for _, sec := range safe {
+		all = append(all, [2]string{"(any)", sec})
+	}
+	vFailOracle(out, "log entries written by the http / grpc clients while failing", "CFail false [] (A \"\") (A \"\")", all, lb.String())
+}
+
 // vTLSDecision: every combination of {absent, key pair A, key pair B} in CertFile / KeyFile and
 // {absent, A, B, one garbage byte} in CertPem / KeyPem
 func vTLSDecision(t *testing.T, out *vOut) {
@@ -784,6 +999,28 @@ func vTLSDecision(t *testing.T, out *vOut) {
 		}
 		term := fmt.Sprintf("CTls %d %d %d %d %d", cf, cp, kf, kp, obs)
 		out.Case(true, term)
+		// the text of the error: fixed messages; the loader's own error behind a fixed prefix
+		etxt, lerr := "", ""
+		if err != nil {
+			etxt = strings.TrimPrefix(strings.TrimPrefix(err.Error(), "failed to load TLS config: "), "failed to load TLS cert and key: ")
+			if i := strings.Index(etxt, "failed to load TLS cert and key PEMs: "); i == 0 {
+				lerr = etxt[len("failed to load TLS cert and key PEMs: "):]
+			}
+			for _, sl := range []int{cp, kp} {
+				if sl == 1 || sl == 2 {
+					for _, body := range []string{ps[sl].key, ps[sl].cert} {
+						lines := strings.Split(body, "\n")
+						if len(lines) > 2 && strings.Contains(err.Error(), lines[1]) {
+							out.Oracle("secret-revealed", term, fmt.Sprintf("path=configtls load error: the error text contains PEM material of pair %d: %q; cause=unexplained", sl, err.Error()))
+						}
+					}
+				}
+			}
+		}
+		if !strings.Contains(lerr, dir) { // (an unreadable-file error would name the temp dir; none here)
+			out.Case(true, fmt.Sprintf("CTlsErr %d %d %d %d %s %s", cf, cp, kf, kp, vEnc(lerr), vEnc(etxt)))
+			out.Stat("tls_error_text_cases", 1)
+		}
 		out.Stat("tls_decision_cases", 1)
 		out.Stat(fmt.Sprintf("tls_outcome_%d", obs), 1)
 		// direct oracle: PEM-only configurations load exactly the configured pair
@@ -812,6 +1049,7 @@ func TestVerifC14E2E(t *testing.T) {
 	vUseGRPC(t, out, r.secrets)
 	vUseTLS(t, out)
 	vTLSDecision(t, out)
+	vUseFailures(t, out, r.secrets)
 
 	// ---- decoding through confmap
 	for _, sec := range r.secrets {
